@@ -14,7 +14,7 @@
 From Coq Require Import String.
 From Coq Require Import List ZArith NArith Bool.
 From FIM Require Import Base.Str Model.Serial1Text Model.Serial1Graph.
-From FIM Require Import Proofs.Serial1Text Proofs.Serial1Doc Proofs.Serial1Store Proofs.Serial1Main.
+From FIM Require Import Proofs.Serial1Text Proofs.Serial1Doc Proofs.Serial1Store Proofs.Serial1Main Proofs.Serial1Inv.
 Import ListNotations.
 
 (* ================= text layer ================= *)
@@ -185,22 +185,24 @@ Theorem C01_validates_after_import_direct : forall jsonok f ep s gid g,
 Proof. exact validates_after_import_direct. Qed.
 Print Assumptions C01_validates_after_import_direct.
 
-(* ================= non-vacuity ================= *)
-(* a graph with quotes, markup, references, non-ASCII (BMP and astral), leading/trailing blanks, an empty
-   string, TAB and LF, a negative and a huge int and a bool, loaded next to another graph *)
-Definition ex_graph : nxg :=
-  {| g_nodes :=
-       [(7%N, [(P_NodeID, PStr (S"n1 <&> ""q"" '")); (P_Class, PStr (S"NetworkNode")); (P_GraphID, PStr (S"g"));
-               (10%N, PStr [32; 233; 8232; 128512; 38; 35; 49; 51; 59; 32]%N); (11%N, PStr []);
-               (12%N, PInt (-7)); (13%N, PBool true)]);
-        (9%N, [(P_GraphID, PStr (S"g")); (P_NodeID, PStr (S"n2")); (P_Class, PStr (S"Component"));
-               (10%N, PInt 100000000000000000000); (11%N, PStr [9; 10; 93; 93; 62]%N)])];
-     g_edges := [(9%N, 7%N, [(P_Class, PStr (S"has")); (10%N, PStr (S"<!-- -->"))])] |}.
-Definition ex_other : nxg :=
-  {| g_nodes := [(1%N, [(P_GraphID, PStr (S"other")); (P_NodeID, PStr (S"x")); (P_Class, PStr (S"Link"))])]; g_edges := [] |}.
-Definition ex_store : store :=
-  fst (add_graph_direct (fst (add_graph_direct empty_store (S"other") ex_other)) (S"g") ex_graph).
+(* ================= the store hypothesis holds in every reachable store ================= *)
+(* store_wf (internal ids distinct and below the counter, edges between stored nodes) is kept by every load ... *)
+Theorem C01_store_invariant_loads : forall ops,
+  Forall (fun x : bool * str * nxg => graph_shape (snd x) = true) ops ->
+  store_wf (fold_left load_op ops empty_store) = true.
+Proof. exact loads_wf. Qed.
+Print Assumptions C01_store_invariant_loads.
 
+(* ... and by every import through any entry point, whatever its outcome *)
+Theorem C01_store_invariant_import : forall ep s t gid, store_wf s = true ->
+  (forall g, text_graph t = Some g -> graph_shape g = true) ->
+  store_wf (fst (import_via ep s t gid)) = true.
+Proof. exact import_via_wf. Qed.
+Print Assumptions C01_store_invariant_import.
+
+(* ================= non-vacuity ================= *)
+(* ex_graph (Model/Serial1Graph.v): quotes, markup, references, non-ASCII (BMP and astral), leading/trailing
+   blanks, an empty string, TAB and LF, a negative and a huge int and a bool; ex_store holds it next to another graph *)
 Example C01_nonvacuous_hypotheses :
   store_wf ex_store = true /\ graph_wf ex_graph = true /\ graph_no_cr ex_graph = true /\ graph_ids_ok ex_graph = true
   /\ fmt_ok JsonFmt ex_graph = true /\ gid_ok GraphMLFmt (S"new id") = true
